@@ -552,8 +552,17 @@ func (l *ledgers) entryGone(ni *nodeInc, i, t, newTerm uint64, wasLeader bool) {
 		return
 	}
 	if ct, ok := l.committed[i]; ok && ct == t && i > r.snaps.index {
-		run.violate("C02", "committed_entry_dropped", "committed_dropped", "%v dropped committed entry (%d,%d) (now term %d, last=%d, snapshot=%d)", ni, i, t, newTerm, r.lastLogIndex, r.snaps.index)
-		return
+		// Every leader of a term at or above the one in which the entry became committed holds it
+		// (leader completeness), so only the request of a leader deposed before that can make a
+		// node replace its copy: a lagging node still following that older leader, whose copy was
+		// not among those that committed the entry and which gets the entry back from the current
+		// leader. That is inherent in Raft and not what the property rules out; below the node's
+		// own commit index, or under a leader of the committing term or later, it is a violation.
+		if cin, seen := l.commitIn[i]; !seen || r.term >= cin || i <= ni.obs.commit {
+			run.violate("C02", "committed_entry_dropped", "committed_dropped", "%v dropped committed entry (%d,%d) (now term %d, last=%d, snapshot=%d; node in term %d, entry committed in term %d)", ni, i, t, newTerm, r.lastLogIndex, r.snaps.index, r.term, l.commitIn[i])
+			return
+		}
+		run.reach("copy_of_committed_entry_replaced_under_deposed_leader")
 	}
 	run.reach("truncate_conflict")
 }
@@ -1284,7 +1293,8 @@ func (run *simRun) probe(name string, args []interface{}) {
 		if req, ok := args[1].(*timeoutNowReq); ok {
 			pool := args[0].(*connPool)
 			if tn := run.node(pool.nid); tn != nil && tn.inc.live() && tn.inc.obs.started {
-				run.led.onTimeoutNowEnter(tn.inc, req)
+				dl, _ := args[3].(time.Time)
+				run.led.onTimeoutNowEnter(tn.inc, req, dl)
 			}
 		}
 	case "leader.doChangeConfig:enter":
@@ -1591,30 +1601,31 @@ func (run *simRun) settleCheck() {
 	run.sim.After(int64(run.cfg.HB), "settle-check", run.settleCheck)
 }
 
-// votersNotRunning: for every node that may campaign, fewer than a quorum of the voters of
-// its own latest configuration are running (Serve has not returned).
+// votersNotRunning: fewer than a quorum of the voters of the current configuration (the newest
+// one any running node holds) are running (Serve has not returned). A node with an older
+// configuration may see a quorum of *its* voters running, but those have moved on and do not
+// vote for it.
 func (run *simRun) votersNotRunning() bool {
-	campaigners := 0
+	var newest *Config
 	for _, ni := range run.liveIncs() {
-		r := ni.r
-		if ni.exited || !r.configs.Latest.isVoter(r.nid) {
-			continue
-		}
-		campaigners++
-		running := 0
-		for id, n := range r.configs.Latest.Nodes {
-			if !n.Voter {
-				continue
-			}
-			if o := run.node(id); o != nil && o.inc.live() && !o.inc.exited {
-				running++
-			}
-		}
-		if running >= r.configs.Latest.quorum() {
-			return false
+		c := &ni.r.configs.Latest
+		if newest == nil || c.Index > newest.Index || (c.Index == newest.Index && c.Term > newest.Term) {
+			newest = c
 		}
 	}
-	return campaigners > 0 || len(run.liveIncs()) > 0
+	if newest == nil {
+		return true
+	}
+	running := 0
+	for id, n := range newest.Nodes {
+		if !n.Voter {
+			continue
+		}
+		if o := run.node(id); o != nil && o.inc.live() {
+			running++
+		}
+	}
+	return running < newest.quorum()
 }
 
 // electionBlockedByUncommittedConfig recognises one specific stuck state: some
